@@ -313,7 +313,8 @@ func TestC19_Binary(t *testing.T) {
 		}
 		return n
 	}
-	protected := []string{"/task-updates", "/add-source", "/save-source", "/add-integration", "/save-integration"}
+	// (/task-updates streams: when it is reached without a session nothing returns; it is probed last)
+	protected := []string{"/add-source", "/save-source", "/add-integration", "/save-integration", "/task-updates"}
 	for _, route := range protected {
 		for _, m := range []string{"GET", "POST"} {
 			before := writes()
@@ -322,8 +323,14 @@ func TestC19_Binary(t *testing.T) {
 				body = strings.NewReader(`{"name":"x","enabled":true,"table":{"name":"x","columns":[]}}`)
 			}
 			req, _ := http.NewRequest(m, base+route, body)
+			allBefore := len(db.Events())
 			resp, err := client.Do(req)
 			if err != nil {
+				// no answer within the client's time-out: a redirect is immediate, so something else is
+				// running; if it talked to the database meanwhile it is the protected handler
+				if n := len(db.Events()) - allBefore; n > 0 {
+					t.Fatalf("VERIF-VIOLATION property=C19 %s %s without a session (loopback client, loopback authentication enforced): no redirect; the request did not return (%v) and %d database events were caused meanwhile: the protected handler is running", m, route, err, n)
+				}
 				t.Fatalf("VERIF-INCONCLUSIVE request %s %s: %v", m, route, err)
 			}
 			resp.Body.Close()
@@ -469,5 +476,49 @@ func TestC19_ConcurrentLogins(t *testing.T) {
 		ev.LabelN("wrong-guesses-refused", wrongTried.Load())
 		ev.LabelN("right-logins", rightOK.Load())
 		ev.Sample(2, map[string]any{"password_len": len(cfgPw), "workers": workers, "logins_per_worker": rounds})
+	}
+}
+
+// TestC19_PasswordFromJSON: the configured root password is the string the file holds —
+// characters that mean something to a shell or a template ($, {, %, \) included — and
+// nothing that merely resembles it (the same string with $words expanded or removed) opens
+// a session. (A value that STARTS with $ names an environment variable: documented, not used here.)
+func TestC19_PasswordFromJSON(t *testing.T) {
+	ev := evid.For("C19", "PasswordFromJSON")
+	issued := func(cs []*http.Cookie) bool {
+		for _, c := range cs {
+			if c.Name == "session" && c.Value != "" {
+				return true
+			}
+		}
+		return false
+	}
+	os.Setenv("C19_SET", "value")
+	defer os.Unsetenv("C19_SET")
+	for _, pw := range []string{"plain-pw", "Tr0ub4dor$3cret", "pa$$w0rd", "a${HOME}b", "a${C19_SET}b", "mid$C19_SET-x", "mid$C19_UNSET-x", "end$", "100%s", `back\slash`, `quo"te`, "a&b<c>", "{{.}}", "sp ace"} {
+		b, _ := json.Marshal(map[string]any{"pg_url": "x", "dashboard": map[string]any{"root_password": pw}})
+		var conf config.Root
+		if err := json.Unmarshal(b, &conf); err != nil {
+			t.Fatalf("VERIF-INCONCLUSIVE config decode: %v", err)
+		}
+		h := web.New(nil, &conf, nil)
+		special := strings.ContainsAny(pw, `$%\{`)
+		ev.Case(special, "configured password "+pw, fmt.Sprintf("special=%v", special))
+		if special {
+			ev.Sample(4, "configured password "+pw)
+		}
+		// (whether the configured string itself is accepted is availability, not this property: noted only)
+		_, cs0 := c19Login(h, "8.8.8.8:1", pw, "POST")
+		ev.Case(false, "configured accepted "+pw, fmt.Sprintf("configuredAccepted=%v", issued(cs0)))
+		rawJSON, _ := json.Marshal(pw)
+		raw := string(rawJSON[1 : len(rawJSON)-1]) // the spelling inside the file
+		wrong := map[string]bool{raw: true, os.ExpandEnv(pw): true, os.Expand(pw, func(string) string { return "" }): true, strings.ReplaceAll(pw, "$", ""): true, pw + "x": true, pw[:len(pw)-1]: true}
+		delete(wrong, pw)
+		for g := range wrong {
+			ev.Case(true, "configured "+pw+" guess "+g, "wrong-guess")
+			if _, cs := c19Login(h, "8.8.8.8:1", g, "POST"); issued(cs) {
+				t.Fatalf("VERIF-VIOLATION property=C19 password %q opens a session although the file configures %q (configured string accepted: %v)", g, pw, issued(cs0))
+			}
+		}
 	}
 }
